@@ -1,4 +1,4 @@
-import DarkluaModel.Shared.VisitorSound.Heap.HRefl
+import DarkluaModel.Shared.VisitorSound.Heap.HDrop
 /-!
 # Stage 3: congruence closure of exact steps and allocation-insensitive steps
 
@@ -29,6 +29,11 @@ inductive HR : List String → Node → Node → List String → Prop
   | genL {D a b} : (∀ Q, QRefl Q → SoundL Q D a b) → HR D (.l a) (.l b) D
   | genB {D a b D'} : (∀ Q, QRefl Q → SoundB Q D a b D') → HR D (.b a) (.b b) D'
   | genRep {D a x b y} : (∀ Q, QRefl Q → SoundRep Q D a x b y) → HR D (.rep a x) (.rep b y) D
+  -- a pure `local` declaration present on one side only (its names become dead)
+  | dropLocal {D kind ns vs rest rest' D'} : TotalPureEs vs → HR (ns.map TName.name ++ D) (.ss rest) (.ss rest') D' →
+      HR D (.ss (.localAssign kind ns vs :: rest)) (.ss rest') D'
+  | addLocal {D kind ns vs rest rest' D'} : TotalPureEs vs → HR (ns.map TName.name ++ D) (.ss rest) (.ss rest') D' →
+      HR D (.ss rest) (.ss (.localAssign kind ns vs :: rest')) D'
   -- expressions
   | paren {D x x'} : HR D (.e x) (.e x') D → HR D (.e (.paren x)) (.e (.paren x')) D
   | un {D op x x'} : HR D (.e x) (.e x') D → HR D (.e (.un op x)) (.e (.un op x')) D
